@@ -40,6 +40,8 @@ try:
     if not os.path.exists(demo_dst + "/Cargo.lock"):
         shutil.copy("/repo/Cargo.lock", demo_dst + "/Cargo.lock")
     demo_cmd = re.sub(r"/tmp/agent-[A-Za-z0-9]+/demo_\d+", demo_dst, meta["demo_cmd"])
+    # demos for the big-endian interpreter were given the agent's own Miri sysroot: any s390x Miri sysroot does
+    demo_cmd = re.sub(r"MIRI_SYSROOT=/tmp/agent-[A-Za-z0-9]+/miri-sysroot", "MIRI_SYSROOT=/verif/target/miri-sysroot-s390x", demo_cmd)
     rc0, out0 = sh(demo_cmd)
     res["demo_without_change_rc"] = rc0
     rc, out = sh("git apply %s" % patch_file, cwd=wt)
